@@ -70,6 +70,21 @@ def prove(pc, goal, timeout_ms=None, want_model=True):
         return 'proved', 'z3', ms, None
     if r == z3.sat:
         return 'refuted', 'z3', ms, (s.model() if want_model else None)
+    # unknown: second z3 strategy, pure E-matching (no model-based quantifier instantiation)
+    if any(has_quantifier(f) for f in pc) or has_quantifier(goal):
+        s2 = z3.Solver()
+        s2.set('timeout', timeout_ms)
+        s2.set('auto_config', False)
+        s2.set('smt.mbqi', False)
+        s2.add(*pc)
+        s2.add(z3.Not(goal))
+        t1 = time.time()
+        r2 = s2.check()
+        ms2 = (time.time() - t1) * 1000
+        stats['z3_ms'] += ms2
+        ms += ms2
+        if r2 == z3.unsat:
+            return 'proved', 'z3-ematching', ms, None
     # unknown: try cvc5 on the SMT-LIB rendering
     reason = s.reason_unknown()
     try:
